@@ -80,15 +80,20 @@ const SITE_USER: u8 = 0;
 const SITE_WRITE_BEGUN: u8 = 1;
 /// region_cached `set_global/published` (latest value stored, regions not yet invalidated)
 const SITE_PUBLISHED: u8 = 2;
-/// region_cached `with_in_region/latest-loaded` (latest value loaded, marker not yet placed);
-/// region_local `initialize/uninitialized-seen` (empty slot seen, marker not yet placed)
+/// region_local `initialize/uninitialized-seen` (empty slot seen, marker not yet placed);
+/// region_cached has no such point any more (it announces the initialisation before it loads the
+/// latest value): gates with this site fire at `SITE_ANNOUNCED` there
 const SITE_INIT_BEGUN: u8 = 3;
 /// region_cached `initialize/cloned`, region_local `initialize/initialized`
 /// (value produced, not yet installed; the marker is in the slot unless a write removed it)
 const SITE_PRODUCED: u8 = 4;
 /// region_cached `with_in_region/initialized` (regional copy installed, latest generation not yet re-checked)
 const SITE_INSTALLED: u8 = 5;
-const NSITES: usize = 6;
+/// region_cached `initialize/announced` (marker placed, latest value not yet loaded)
+const SITE_ANNOUNCED: u8 = 6;
+/// region_cached `initialize/latest-loaded` (marker placed, latest value loaded, not yet cloned)
+const SITE_LOADED: u8 = 7;
+const NSITES: usize = 8;
 
 const SITE_LABEL: [&str; NSITES] = [
     "user-callback(clone/initialiser-fn)",
@@ -97,6 +102,8 @@ const SITE_LABEL: [&str; NSITES] = [
     "init-begun(before-marker)",
     "produced(before-install)",
     "installed(before-recheck)",
+    "announced(before-load)",
+    "latest-loaded(before-clone)",
 ];
 
 /// Installed as the `__verif` point hook of both crates.
@@ -104,7 +111,9 @@ fn point_hook(name: &'static str) {
     let site = match name {
         "set_global/generation-taken" | "set_local/region-resolved" => SITE_WRITE_BEGUN,
         "set_global/published" => SITE_PUBLISHED,
-        "with_in_region/latest-loaded" | "initialize/uninitialized-seen" => SITE_INIT_BEGUN,
+        "initialize/uninitialized-seen" => SITE_INIT_BEGUN,
+        "initialize/announced" => SITE_ANNOUNCED,
+        "initialize/latest-loaded" => SITE_LOADED,
         "initialize/cloned" | "initialize/initialized" => SITE_PRODUCED,
         "with_in_region/initialized" => SITE_INSTALLED,
         _ => return,
@@ -118,6 +127,9 @@ fn effective_site(raw: u8, cached: bool) -> u8 {
     match (cached, s) {
         (false, SITE_PUBLISHED) => SITE_WRITE_BEGUN,
         (false, SITE_INSTALLED) => SITE_PRODUCED,
+        (false, SITE_ANNOUNCED) => SITE_INIT_BEGUN,
+        (false, SITE_LOADED) => SITE_PRODUCED,
+        (true, SITE_INIT_BEGUN) => SITE_ANNOUNCED,
         _ => s,
     }
 }
@@ -724,7 +736,7 @@ impl Run<'_> {
         self.stack.iter().any(|(r, _, site)| {
             // a thread parked in user code or just before installing still has its marker in the
             // slot unless a write removed it since
-            (*site == SITE_USER || *site == SITE_PRODUCED) && self.holds[*r].is_some_and(|x| mine.is_none_or(|m| m == x))
+            matches!(*site, SITE_USER | SITE_PRODUCED | SITE_ANNOUNCED | SITE_LOADED) && self.holds[*r].is_some_and(|x| mine.is_none_or(|m| m == x))
         })
     }
 
@@ -955,6 +967,10 @@ impl Run<'_> {
                 self.holds[t] = None;
                 self.last_holding[t] = None;
             }
+            SITE_ANNOUNCED => {
+                self.holds[t] = region;
+                self.last_holding[t] = None;
+            }
             SITE_USER => {
                 self.holds[t] = region;
                 self.last_holding[t] = holding;
@@ -964,7 +980,7 @@ impl Run<'_> {
         }
         self.site_count[t][site as usize] += 1;
         let k = self.site_count[t][site as usize];
-        let init_site = matches!(site, SITE_USER | SITE_INIT_BEGUN | SITE_PRODUCED | SITE_INSTALLED);
+        let init_site = matches!(site, SITE_USER | SITE_INIT_BEGUN | SITE_PRODUCED | SITE_INSTALLED | SITE_ANNOUNCED | SITE_LOADED);
         if init_site && region.is_none() {
             // an initialiser in an unknown region cannot be modelled
             return Ok(());
